@@ -21,6 +21,8 @@
 // Classification of deaths: before every step the worker rewrites its (captured) stderr with a one-line breadcrumb in the form
 // of a stack frame, "    #0 0x0 in <WHAT>:<filter class>:<queue class>[:<phase>] (C07)", so that MUTX's death key -- which ends with
 // the innermost frame of the captured report -- names the command class that was executing: fatal:hang:JETTISONRESULTS:accepting-filter:queued-dataitems.
+// The class is computed from the command Message and X's queue at that moment (ClassOfMessage below): a keyed JETTISONRESULTS counts as
+// "accepting-filter" exactly when the PathMatcher the handler will build accepts an item that is queued right now.
 //
 // Pruning (Watchdog lesson: never extend a history whose prefix already hung).  Depth 1 is enumerated first; the set D of dead
 // (pre-state, history) pairs is read back from a shared status array (started but never finished).  A longer history from the
@@ -28,9 +30,18 @@
 // in D (that command sequence is already a reported violation from this very pre-state); both kinds are counted in `extra`.
 // On a tree without dying histories nothing is skipped.
 //
-// Depth 2 first commands: one representative per distinct canonical post-state (server dump incl. X's undrained queue) of the
-// depth-1 run, commands that leave the pre-state unchanged excluded (their extensions ARE the depth-1 cases); in the quick tier
-// only representatives of the commands flagged as state builders.
+// Depth 2 first commands: one representative (lowest command number) per distinct ABSTRACT post-state class of the depth-1 run
+// (tree + X's subscriptions/route/flags + X's queue with DATAITEMS/DATATREES/INDEXUPDATED in full and other queued Messages by what
+// code); commands that leave the exact canonical state unchanged are excluded (their extensions ARE the depth-1 cases).  Quick tier:
+// representatives among the reduced alphabet, pre-states 0, 2, 3.  Thorough tier: among all commands for the pre-states with a full
+// queue (2, 3), among the flagged state builders for the others; plus depth 3 over the reduced alphabet.
+//
+// Part l2-sockets (harness/C07_l2.h): a fixed list of histories and the first histories that died at depth 1 are replayed against the
+// socket-stepped server (real socket pairs + gateways, ServerProcessLoop(0) cycles, X's connection full because X does not read), so
+// that a finding reads "the server's event loop stopped", not "a handler was slow in a harness".
+//
+// Aids: --list 1 (the alphabet with flags and static classes), --reps 1 (the depth-2 first commands), --bench 1 (cost of a history),
+// --cpu <s> (watchdog budget), --replay <file> (runs the history of a replay file in this process, verbosely).
 #include "harness/reflector_l1.h"
 #include "harness/C07_alphabet.h"
 #include "harness/C07_l2.h"
@@ -52,7 +63,7 @@ static const char * kPreName[NUM_PRE] = {
 
 // ------------------------------------------------------------------------------------------------ shared with the forked workers
 struct CaseRec { uint8_t status; uint8_t pad[7]; uint64_t post, abs; };   // status: 0 not run, 1 started, 2 finished clean, 3 finished with a failed check, 4 skipped by a pruning rule
-struct Counters { volatile uint64_t commands, pongs, victimProbes, jettisonCommands, jettisonEditedQueue, skippedPrefix, skippedSuffix, maxQueue, loopPasses; };
+struct Counters { volatile uint64_t commands, pongs, victimProbes, jettisonCommands, jettisonEditedQueue, skippedPrefix, skippedSuffix, maxQueue, loopPasses, banListEdits; };
 static Counters * g_cnt = NULL;
 #define ADD(field, n) __sync_fetch_and_add(&g_cnt->field, (uint64_t)(n))
 template <class T> static T * ShmAlloc(size_t n)
@@ -309,13 +320,15 @@ static std::string BuildPre(Scene & S, int pre)
       w.GrantPrivilege(muscle::PR_PRIVILEGE_ADDBANS, "hX"); w.GrantPrivilege(muscle::PR_PRIVILEGE_REMOVEBANS, "hX");
       muscle::FilterSessionFactory * fsf = new muscle::FilterSessionFactory(muscle::ReflectSessionFactoryRef(new NoSessionsFactory));
       muscle::ReflectSessionFactoryRef f(fsf); S.fsf = fsf;
-      if (w.server.PutAcceptFactory(0, f, muscle::localhostIP, &port).IsError()) return "PutAcceptFactory (listening socket on localhost) failed";
+      // (registered for "any interface": AbstractReflectSession::GetFactory(port) looks factories up under that key only)
+      if (w.server.PutAcceptFactory(0, f, muscle::invalidIP, &port).IsError()) return "PutAcceptFactory (listening socket on an ephemeral port) failed";
    }
    if (!w.Attach(RX, "hX", 1) || !w.Attach(RV, "hV", 2) || !w.Attach(RW, "hW", 3)) return "attach failed";
    if (pre == P_PRIV) {
       // what ReflectServer::DoAccept() does for a session created by a factory (ReflectServer.cpp: newSessionRef()->_ipAddressAndPort = iap):
       // the session remembers the interface/port it was accepted on, which is how ADDBANS/REMOVEBANS find "their" factory.
       w.S(RX)->_ipAddressAndPort = muscle::IPAddressAndPort(muscle::localhostIP, port);
+      if (w.S(RX)->GetFactory(w.S(RX)->GetPort())() != S.fsf) return "the privileged pre-state's session does not find its FilterSessionFactory";
    }
    // V
    w.Inject(RV, l1::SetData("vx", Rich(1))); w.Inject(RV, l1::SetData("vx/y", Rich(2))); w.Inject(RV, l1::SetData("vi", Rich(3)));
@@ -425,11 +438,13 @@ static void RunHistory(const c07::Alphabet & A, int pre, const int * cmds, int n
       cls = ClassOfMessage(*m(), (S.w.S(RX) && S.w.S(RX)->GetGateway()()) ? &S.w.S(RX)->GetGateway()()->GetOutgoingMessageQueue() : NULL) + ":" + QueueClass(S.w, RX);
       const bool jet = (m()->what == muscle::PR_COMMAND_JETTISONRESULTS || m()->what == muscle::PR_COMMAND_JETTISONDATATREES);
       std::string before; if (jet) before = QueueText(S.w, RX);
+      const uint32_t bansBefore = S.fsf ? (S.fsf->_bans.GetNumItems() + S.fsf->_requires.GetNumItems()) : 0;
       if (verbose) { printf("X command %d of %d: %s   [class %s]\n", k + 1, n, A.Name(cmds[k]).c_str(), cls.c_str()); fflush(stdout); }
       Crumb(cls, "", k + 1, n);
       S.w.Inject(RX, m);
       ADD(commands, 1);
       if (jet) { ADD(jettisonCommands, 1); if (QueueText(S.w, RX) != before) ADD(jettisonEditedQueue, 1); }
+      if (S.fsf && (S.fsf->_bans.GetNumItems() + S.fsf->_requires.GetNumItems()) != bansBefore) ADD(banListEdits, 1);
       if (verbose) { printf("  returned; X's queue: [%s]\n", QueueSummary(S.w, RX).c_str()); fflush(stdout); }
       if (!AfterCommand(S, cls, k + 1, n, c)) return;
    }
@@ -543,7 +558,7 @@ struct Driver {
    const c07::Alphabet & A; const verif::Args & args; verif::Result & res;
    std::set<Hist> dead;          // histories whose worker died (or, for failed checks, that ended in a violation): never extended
    double cpuLimit;
-   Driver(const c07::Alphabet & a, const verif::Args & ar, verif::Result & r) : A(a), args(ar), res(r), cpuLimit(1.5) {}   // 1.5 s CPU: > 1000x the median history (1.3 ms, --bench), > 70x the slowest one (20 ms)
+   Driver(const c07::Alphabet & a, const verif::Args & ar, verif::Result & r) : A(a), args(ar), res(r), cpuLimit(1.0) {}   // 1 s CPU: ~1000x the median history (1.0-1.3 ms depending on machine load, see --bench), 50x the slowest one (20 ms); a death is re-confirmed alone with 10 s
 
    std::string Desc(int pre, const int * cmds, int n) const
    {
@@ -603,6 +618,7 @@ struct Driver {
       p.extra["event_loop_passes"] = verif::Fmt("%llu", (unsigned long long)(g_cnt->loopPasses - before.loopPasses));
       p.extra["jettison_commands"] = verif::Fmt("%llu", (unsigned long long)(g_cnt->jettisonCommands - before.jettisonCommands));
       p.extra["jettison_commands_that_edited_the_queue"] = verif::Fmt("%llu", (unsigned long long)(g_cnt->jettisonEditedQueue - before.jettisonEditedQueue));
+      p.extra["commands_that_edited_the_ban_or_require_list"] = verif::Fmt("%llu", (unsigned long long)(g_cnt->banListEdits - before.banListEdits));
       p.extra["longest_attacker_queue"] = verif::Fmt("%llu", (unsigned long long)g_cnt->maxQueue);
       p.extra["cpu_limit_per_case_s"] = verif::Fmt("%.2f", cpuLimit);
       fprintf(stderr, "C07 %s: histories=%llu executed=%llu died=%llu failed=%llu skipped=%llu not-run=%llu outcomes=%llu exhaustive=%d part-wall=%.1fs total-wall=%.1fs\n", sp.part.c_str(), (unsigned long long)n,
